@@ -195,6 +195,10 @@ def _run_mutant(args) -> Tuple[str, str, str]:
         ok = True
         for ed in mut["edits"]:
             ok = ok and apply_edit(d, *ed)
+        if mut.get("patch"):
+            import subprocess
+            r = subprocess.run(["patch", "-p1", "-s", "--no-backup-if-mismatch", "-i", mut["patch"]], cwd=d, capture_output=True, text=True)
+            ok = ok and r.returncode == 0
         if not ok:
             return mut["id"], "skipped", "edit does not apply to the current tree"
         if True:
@@ -228,7 +232,12 @@ def _run_mutant(args) -> Tuple[str, str, str]:
 
 def selftest(mod, root: str) -> Dict[str, object]:
     from . import mutants
-    table = mutants.TABLE.get(mod.ID, [])
+    table = list(mutants.TABLE.get(mod.ID, []))
+    # behaviour-preserving refactorings written independently (benign/<area>-<n>/patch.diff): every check must stay silent
+    here = os.path.dirname(os.path.dirname(os.path.abspath(__file__)))
+    import glob
+    for pd in sorted(glob.glob(os.path.join(here, "benign", "*", "patch.diff"))):
+        table.append({"id": "refactoring:" + os.path.basename(os.path.dirname(pd)), "kind": "benign", "rules": set(), "edits": [], "patch": pd})
     if not table:
         return {"mutants": 0}
     base, _ = failing_keys(mod, root)
